@@ -101,8 +101,11 @@ def check_text(text, acc, what):
         return
     t1 = full_tree(r1)
     feats = features(t1)
+    if "$(" not in text:
+        # outer blanks can only come out of an environment variable; from literal text they are a parser matter
+        feats.discard("value-has-surrounding-blanks")
     feat = ("header-ends-with-slash" if "header-ends-with-slash" in feats else
-            "value-has-surrounding-blanks" if "value-has-surrounding-blanks" in feats else
+            "value-has-surrounding-blanks-from-env" if "value-has-surrounding-blanks" in feats else
             "dollar-in-value" if "dollar-in-value" in feats else "none")
     case = {"text": text, "space": what}
     try:
@@ -177,7 +180,9 @@ def shard_seed(shard, acc):
     return acc
 
 
-UNI_CONTEXTS = [("k v", "w"), ("<a b", ">\nk v\n</a>"), ("k", " v"), ("<a", ">\n</a")]
+# the code point inside a value, at the very END of the text (the last printed line), inside a section name, at the
+# very start, between key and value, inside a section type
+UNI_CONTEXTS = [("k v", "w"), ("k v", ""), ("<a b", ">\nk v\n</a>"), ("", "k v"), ("k", " v"), ("<a", ">\n</a")]
 
 
 def shard_unicode(shard, acc):
@@ -195,7 +200,7 @@ def shard_unicode(shard, acc):
 def run(tier):
     L = 4 if tier == "quick" else 5
     n = 3 if tier == "quick" else 4
-    nctx = 2 if tier == "quick" else 4
+    nctx = 4 if tier == "quick" else 6
     A = G.LINE_ALPHABET_C17
     run = core.Run(
         "C17", tier, "exploration",
